@@ -100,6 +100,41 @@ impl FmtOptions {
     }
 }
 
+/// Byte ranges `[start of the annotation, end of its payload)` of every *valid* `@[format(.. verbatim ..)]` annotation
+/// of a parseable source, outermost regions only (sorted). The extent of a payload is a fact of the grammar, so it is
+/// taken from the parser's spans; whether a directive is valid is the repository's own decoding (`FormatMeta`).
+pub fn verbatim_regions(src: &str) -> Option<Vec<(usize, usize)>> {
+    use zydeco_surface::metadata::FormatMeta;
+    use zydeco_surface::textual::syntax::Term;
+    use zydeco_syntax::MetaT;
+    catch(|| {
+        let file_info = FileInfo::new(src, Some(Arc::new(PathBuf::from("input.zy"))));
+        let location = LocationCtx::File(file_info.clone());
+        let mut parser = Parser::new();
+        let _unit = SourceUnitParser::new().parse(src, &location, &mut parser, Lexer::new(src)).ok()?;
+        let mut regions: Vec<(usize, usize)> = Vec::new();
+        for (id, term) in parser.arena.terms.iter() {
+            if let Term::Meta(MetaT(meta, inner)) = term {
+                if let Ok(Some(directive)) = meta.specialize::<FormatMeta>() {
+                    if directive.verbatim {
+                        let (start, _) = parser.spans[&EntityId::Term(*id)].get_cursor1();
+                        let (_, end) = parser.spans[&EntityId::Term(*inner)].get_cursor1();
+                        if start < end && end <= src.len() {
+                            regions.push((start, end));
+                        }
+                    }
+                }
+            }
+        }
+        regions.sort();
+        let all = regions.clone();
+        regions.retain(|r| !all.iter().any(|o| o != r && o.0 <= r.0 && r.1 <= o.1));
+        Some(regions)
+    })
+    .ok()
+    .flatten()
+}
+
 /// Format a source with the given options through the public formatter. Outer Err = panic.
 pub fn format_with(src: &str, options: FmtOptions) -> Result<Result<String, String>, PanicInfo> {
     catch(|| {
